@@ -643,6 +643,12 @@ WITNESSES = [
     {"name": "final-estep-old-centers", "file": _F, "rule": "C06.c", "old": "            norm, X, sample_weight, best_centers, distances=distances\n", "new": "            norm, X, sample_weight, centers_old, distances=distances\n"},
     {"name": "final-estep-removed", "file": _F, "rule": "C06.c", "old": "        best_labels, best_inertia = _labels_inertia(\n            norm, X, sample_weight, best_centers, distances=distances\n        )\n", "new": "        pass\n"},
 ]
+# witnesses of the rules added after the ninth round of independent changes
+WITNESSES += [
+    {"name": "algorithm-constraint-replaced", "file": _F, "rule": "C06.a", "old": '        "norm": [StrOptions({"L1", "L2"})],\n', "new": '        "norm": [StrOptions({"L1", "L2"})],\n        "algorithm": [StrOptions({"lloyd"})],\n'},
+]
+
+
 TWINS = [
     {"name": "empty-guard-len", "file": _F, "old": "            if sub.shape[0] == 0:\n", "new": "            if len(sub) == 0:\n"},
     {"name": "l2-transform-keyword", "file": _F, "old": "            return KMeans.transform(self, X)\n", "new": "            return KMeans.transform(self, X=X)\n"},
